@@ -224,6 +224,7 @@ func newModuleDataProvider(
 		moduleClientProvider,
 		newGraphProvider(container, moduleClientProvider, ownerClientProvider),
 	)
+	delegateModuleDataProvider = verifModuleDataDelegate(delegateModuleDataProvider)
 	// No symlinks.
 	storageosProvider := storageos.NewProvider()
 	cacheBucket, err := storageosProvider.NewReadWriteBucket(fullCacheDirPath)
@@ -258,6 +259,7 @@ func newCommitProvider(
 	}
 	fullCacheDirPath := normalpath.Join(container.CacheDirPath(), v3CacheCommitsRelDirPath)
 	delegateReader := bufmoduleapi.NewCommitProvider(container.Logger(), moduleClientProvider, ownerClientProvider)
+	delegateReader = verifCommitDelegate(delegateReader)
 	// No symlinks.
 	storageosProvider := storageos.NewProvider()
 	cacheBucket, err := storageosProvider.NewReadWriteBucket(fullCacheDirPath)
